@@ -90,6 +90,7 @@ type Report struct {
 	rule         string
 	notExh       bool
 	deadline     time.Time
+	timeouts     int
 }
 
 // New creates the report from VERIF_TIER / VERIF_SEED.
@@ -133,7 +134,12 @@ func (r *Report) Thorough() bool { return r.Tier == "thorough" }
 
 // Expired reports whether the internal wall-clock budget is used up. A check
 // that stops because of it must call Cap(...) — it then exits 0, exhaustive:false.
-func (r *Report) Expired() bool { return time.Now().After(r.deadline) }
+func (r *Report) Expired() bool {
+	r.mu.Lock()
+	d := r.deadline
+	r.mu.Unlock()
+	return time.Now().After(d)
+}
 
 // T adds n lock-step transitions (each executed on model and implementation).
 func (r *Report) T(n int64) { r.transitions.Add(n); r.validated.Add(n) }
